@@ -10,6 +10,9 @@ open Paloma.Libcons
   `addev <evs a:h,…> <a:h>`                    → `<evs>`
   `setelected <cur> <new>`                     → `refused` | `set v`
   `addest <ests a:v,…> <a:v>`                  → `refused` | `<ests>`
+  `enc <proof>`                                → `x<hex>`: the bytes `BytesToHash` produces (proof tokens: `parseProof?`)
+  `evp <total> <vals> <evs a=proof;…> <hint>`  → as `evidence`, on proof content (`Enc.verifyProofs`); a winner is the
+     1-based position of the first entry of its group
   `hist <op> <op> …`                           → `<res> <res> … | <final state>` (see `showRes`, `showHist`): a whole history of the
      C04 history model from its initial state; op tokens (fields separated by `/`):
      `s/<total>/<vals>` snapshot, `p/<0|1>` put, `v/<id>/<a>/<h>` evidence, `g/<id>/<a>/<v>` gas estimate
@@ -30,6 +33,47 @@ def parseHistOp? (tok : String) : Option Hist.Op :=
     pure (.attest (← parseNat? i) ((parseNat? h).getD 0) (← parseNatList? hard) (← parseNatList? soft))
   | ["x", i] => do pure (.prune (← parseNat? i))
   | _ => none
+
+/-! evidence with proof content (`enc`, `evp`): every string field travels as `x<hex of its bytes>` -/
+
+def hexVal? (c : Char) : Option Nat :=
+  if '0' ≤ c ∧ c ≤ '9' then some (c.toNat - 48)
+  else if 'a' ≤ c ∧ c ≤ 'f' then some (c.toNat - 87) else none
+
+def unhex? : List Char → Option Enc.Bytes
+  | [] => some []
+  | [_] => none
+  | a :: b :: r => do
+    let hi ← hexVal? a
+    let lo ← hexVal? b
+    let rest ← unhex? r
+    pure (Fin.ofNat 256 (hi * 16 + lo) :: rest)
+
+def parseBytes? (s : String) : Option Enc.Bytes :=
+  match s.toList with
+  | 'x' :: r => unhex? r
+  | _ => none
+
+def hexDigit (n : Nat) : Char := if n < 10 then Char.ofNat (48 + n) else Char.ofNat (87 + n)
+
+def showBytes (b : Enc.Bytes) : String :=
+  String.ofList ('x' :: b.flatMap (fun c => [hexDigit (c.val / 16), hexDigit (c.val % 16)]))
+
+/-- `e/<msg>` error proof, `b/<height>/<bal,bal,…|->` balances, `r/<height>/<hash>` reference block -/
+def parseProof? (tok : String) : Option Enc.Proof :=
+  match tok.splitOn "/" with
+  | ["e", m] => do pure (.err (← parseBytes? m))
+  | ["b", h, bs] => do pure (.balances (← parseNat? h) (← (splitList bs).mapM parseBytes?))
+  | ["r", h, x] => do pure (.refBlock (← parseNat? h) (← parseBytes? x))
+  | _ => none
+
+/-- `<addr>=<proof>;…` or `-` -/
+def parseProofEvs? (s : String) : Option (List (Nat × Enc.Proof)) :=
+  if s == "-" then some [] else
+  (s.splitOn ";").mapM fun e =>
+    match e.splitOn "=" with
+    | [a, p] => do pure (← parseNat? a, ← parseProof? p)
+    | _ => none
 
 /-- what the harness can observe of a result: the new id, accepted / refused, a new elected value, a
     declaration (with the winning proof); every branch that leaves the state untouched prints `-` -/
@@ -59,6 +103,23 @@ def step (args : List String) : String :=
     match parseNat? t, parsePairList? vs, parsePairList? es with
     | some t, some vs, some es =>
       match verifyEvidence ⟨vs, t⟩ es with
+      | .notAchieved => "notachieved"
+      | .winnerIn ws =>
+        match parseNat? hint with
+        | some w => if ws.contains w then s!"winner {w}" else "winners " ++ showNatList (sortNat ws)
+        | none => "winners " ++ showNatList (sortNat ws)
+    | _, _, _ => "bad-op"
+  | ["enc", p] =>
+    -- the bytes `BytesToHash` derives from the proof
+    match parseProof? p with
+    | some p => showBytes p.bytes
+    | none => "bad-op"
+  | ["evp", t, vs, es, hint] =>
+    -- `VerifyEvidence` on proof content; a winner is named by the (1-based) position of the first
+    -- entry of its group, which is the representative Go returns
+    match parseNat? t, parsePairList? vs, parseProofEvs? es with
+    | some t, some vs, some es =>
+      match Enc.verifyProofs ⟨vs, t⟩ es with
       | .notAchieved => "notachieved"
       | .winnerIn ws =>
         match parseNat? hint with
